@@ -111,6 +111,18 @@ func (c *c08Oracle) Check(w *World, o *Obs) []Violation {
 		if ru.Path != wantPath || ru.RawQuery != st.str("rawquery") || ru.Fragment != "" || ru.Host != "" {
 			return false, fmt.Sprintf("redir %q resolves to path %q query %q fragment %q; original was path %q query %q", redir, ru.Path, ru.RawQuery, ru.Fragment, wantPath, st.str("rawquery"))
 		}
+		// the same resource: the same segments (a delimiter that was encoded
+		// inside a segment must not come back as a separator, or the reverse)
+		wantEsc := (&url.URL{Path: wantPath}).EscapedPath()
+		if rp := st.str("rawpath"); rp != "" {
+			wantEsc = rp
+			if mp && w.Cfg.Mount != "" {
+				wantEsc = (&url.URL{Path: w.Cfg.Mount}).EscapedPath() + rp
+			}
+		}
+		if !sameSegments(ru.EscapedPath(), wantEsc) {
+			return false, fmt.Sprintf("redir %q names the segments of %q; the request was for %q", redir, ru.EscapedPath(), wantEsc)
+		}
 		return true, ""
 	}
 	site := fmt.Sprintf("%s/%d/%d/%v", api, reqs, mode, mp)
@@ -190,6 +202,23 @@ type c08Gen struct {
 	max   int
 }
 
+// sameSegments: two escaped paths name the same resource when they have the
+// same number of segments and each pair decodes to the same string.
+func sameSegments(a, b string) bool {
+	as, bs := strings.Split(a, "/"), strings.Split(b, "/")
+	if len(as) != len(bs) {
+		return false
+	}
+	for i := range as {
+		x, err1 := url.PathUnescape(as[i])
+		y, err2 := url.PathUnescape(bs[i])
+		if err1 != nil || err2 != nil || x != y {
+			return false
+		}
+	}
+	return true
+}
+
 var pathSegs = []string{"a", "Reports", "x y", "50%", "a&b", "k=v", "a+b", "ü", "日本", "semi;colon", "q?x", "frag#1", "%41", "..a", "~u", "@", "!", "(1)", "*", ","}
 var rawQueries = []string{"", "", "x=1", "a=b&c=d", "q=hello%20world", "q=a+b", "redir=%2Fevil", "k=%26%3D", "empty=", "flag", "a=1&a=2", "u=%C3%BC", "x=1;y=2",
 	"next=https://example.com/cb", "file=/docs/../secret/report", "dir=/home/me/", "a=//b", "p=./x", "t=/"}
@@ -224,6 +253,23 @@ func (g *c08Gen) sweep(w *World, b int) []Step {
 					}
 				}
 				out = append(out, st)
+				if mode == 1 && g.r.Chance(1, 2) {
+					// twins: two different resources whose spellings differ only
+					// in whether a delimiter is encoded, behind the same guard
+					base := fmt.Sprintf("/probe/mw/%d/%d/%d/%s", reqs, mode, mpi, segs[0])
+					besc := (&url.URL{Path: base}).EscapedPath()
+					switch g.r.Intn(3) {
+					case 0:
+						out = append(out, Step{Kind: "probe", B: b, A: -1, Str: map[string]string{"path": base + "/a/b", "rawpath": besc + "/a%2Fb"}},
+							Step{Kind: "probe", B: b, A: -1, Str: map[string]string{"path": base + "/a/b"}})
+					case 1:
+						out = append(out, Step{Kind: "probe", B: b, A: -1, Str: map[string]string{"path": base + "/what?draft"}},
+							Step{Kind: "probe", B: b, A: -1, Str: map[string]string{"path": base + "/what", "rawquery": "draft"}})
+					default:
+						out = append(out, Step{Kind: "probe", B: b, A: -1, Str: map[string]string{"path": base + "/x y", "rawquery": "v=1"}},
+							Step{Kind: "probe", B: b, A: -1, Str: map[string]string{"path": base + "/x y", "rawquery": "v=2"}})
+					}
+				}
 				if g.r.Chance(1, 3) {
 					// the same row with the current user already loaded by an outer middleware
 					cp := fmt.Sprintf("/probe/chain/%d/%d/%d/%s", reqs, mode, mpi, strings.Join(segs, "/"))
